@@ -10,6 +10,9 @@ Import ListNotations.
 Ltac Zify.zify_post_hook ::= Z.div_mod_to_equations.
 Local Open Scope N_scope.
 
+Lemma Ok_inj {A} (a b : A) : Ok a = Ok b -> a = b.
+Proof. congruence. Qed.
+
 Section RT.
 Variable m : N -> N.
 Hypothesis Hm : gid16 m.
@@ -128,7 +131,7 @@ Proof.
   set (n := length segs) in *.
   set (ros := ros_of m segs (N.of_nat n) 0) in *. set (gia := gia_of m segs) in *.
   assert (Hgl : N.of_nat (length gia) = gia_len m segs) by apply gia_of_length.
-  injection Hb as Hb.
+  apply Ok_inj in Hb.
   (* run the decoder model directly on b = flat_map be16 ws *)
   set (ws := emit4_words segs lang ros gia) in *.
   assert (Hwl : N.of_nat (length ws) = 8 + 4 * N.of_nat n + gia_len m segs).
@@ -162,14 +165,14 @@ Proof.
   set (len := N.of_nat (length b)).
   replace (negb (len mod 2 =? 0) || (len <? 16)) with false by (subst len; lia).
   assert (Hx2 : rd16 (skipn 6 b) = 2 * N.of_nat n).
-  { rewrite (rd16_skipn_words b 3) by lia. rewrite Hws. subst ws. unfold emit4_words.
+  { change 6%nat with (2 * 3)%nat. rewrite (rd16_skipn_words b 3) by lia. rewrite Hws. subst ws. unfold emit4_words.
     cbn [app nth]. fold n. unfold u16. apply N.mod_small. lia. }
   rewrite Hx2.
   replace (negb (2 * N.of_nat n mod 2 =? 0) || (len <? 4 * (2 * N.of_nat n) + 16)) with false
     by (subst len; lia).
   replace (2 * N.of_nat n / 2) with (N.of_nat n) by lia.
   assert (Hwords : to_words (skipn 14 b) = skipn 7 ws).
-  { rewrite <- Hws. exact (to_words_skipn 7 b). }
+  { rewrite <- Hws. change 14%nat with (2 * 7)%nat. exact (to_words_skipn 7 b). }
   rewrite Hwords.
   (* the seven header words are dropped; what remains are the arrays *)
   assert (Hrest : skipn 7 ws = map s_last segs ++ [0] ++ map s_first segs ++ map s_delta segs ++ ros ++ gia)
